@@ -88,6 +88,15 @@ func ZZ_C15_RoundTrip() {
 	k.SetTxStatus(ctx, "0xin", types.TX_STATUS_BATCH_CREATED, "")
 	k.SetTxFeeRecord(ctx, "0xin", types.TxFeeRecord{ValCommission: sdk.NewInt(1), ExternalFee: sdk.NewInt(2)})
 
+	// a second chain in a different condition: counters and a validator nonce, but no signer set observed yet and
+	// no delegate keys (restoring one kind of entry must not depend on another kind being present)
+	chain2 := types.ChainID("bsc")
+	k.setLastOutgoingBatchNonce(ctx, chain2, 1+vrt.Uint64Below("c2.batchNonce", 1<<56))
+	k.SetLastObservedExternalBlockHeight(ctx, chain2, 1+vrt.Uint64Below("c2.extHeight", 1<<56))
+	k.setLastObservedEventNonce(ctx, chain2, vrt.Uint64Below("c2.lastObserved", 1<<56))
+	k.setLastEventNonceByValidator(ctx, chain2, oper, vrt.Uint64Below("c2.valNonce", 1<<56))
+	k.setOutgoingSequence(ctx, chain2, vrt.Uint64Below("c2.seq", 1<<56))
+
 	var gs types.GenesisState
 	if vrt.Panics(func() { gs = ExportGenesis(ctx, k) }) {
 		vrt.Assert("c15.export.no-panic", false)
